@@ -784,7 +784,8 @@ type nfRawConn struct {
 
 type nfScenario struct {
 	ID        int         `json:"id"`
-	Fault     string      `json:"fault"` // none | slow | down | late | stalled | rec | garble
+	Fault     string      `json:"fault"` // none | slow | down | late | stalled | rec | garble | install
+	Stall     []string    `json:"stall"` // install: inbound peers that connect to the victim FIRST and stall: notls | nohs | halfhs | halfframe
 	Victim    int         `json:"victim"`
 	N         int         `json:"n"`
 	Dom       string      `json:"dom"`
@@ -823,6 +824,7 @@ type nfRun struct {
 	hold     []net.Conn
 	holdMu   sync.Mutex
 	closers  []func()
+	extra    *nxIdent // a registered peer without listener (node N+1): the stalling inbound peer that authenticates
 }
 
 // deterministic payload: the first 8 bytes carry the message id (when there is room), the rest is a xorshift stream
@@ -874,7 +876,68 @@ func (r *nfRun) p2id() map[string]uint16 {
 	for _, n := range r.nodes {
 		m[nxRegKey(nxDom(r.s.Dom), n.ident.Bytes)] = uint16(n.id)
 	}
+	if r.extra != nil {
+		m[nxRegKey(nxDom(r.s.Dom), r.extra.Bytes)] = uint16(r.s.N + 1)
+	}
 	return m
+}
+
+// an inbound peer that is slow at connection set-up: it connects to the victim's listener and then stops for good
+//
+//	notls      TCP connection, never a TLS ClientHello
+//	nohs       TLS established, never an authentication handshake
+//	halfhs     TLS, the length prefix and half of a valid authentication handshake
+//	halfframe  TLS, valid authentication (registered node N+1), half a message frame
+//
+// The connection stays open until the scenario ends.
+func (r *nfRun) staller(kind string) {
+	v := r.nodes[r.s.Victim]
+	r.ev(obj{"e": "stall", "kind": kind, "to": v.id})
+	keep := func(c net.Conn) {
+		r.holdMu.Lock()
+		r.hold = append(r.hold, c)
+		r.holdMu.Unlock()
+	}
+	if kind == "notls" {
+		c, err := net.DialTimeout("tcp", v.addr, 10*time.Second)
+		if err != nil {
+			nxFatal("staller could not connect: %v", err)
+		}
+		keep(c)
+		return
+	}
+	// the TLS handshake needs the victim's handler goroutine: done in the background so that the order of connecting is what
+	// the scenario asks for even if (mutated) code lets an earlier staller delay this one
+	tc, err := net.DialTimeout("tcp", v.addr, 10*time.Second)
+	if err != nil {
+		nxFatal("staller could not connect: %v", err)
+	}
+	keep(tc)
+	go func() {
+		c := tls.Client(tc, &tls.Config{RootCAs: r.mat.pool, ServerName: "127.0.0.1", MinVersion: tls.VersionTLS13})
+		if err := c.Handshake(); err != nil {
+			return
+		}
+		cs := c.ConnectionState()
+		binding, err := cs.ExportKeyingMaterial("MPC", []byte("MPC"), 32)
+		if err != nil {
+			return
+		}
+		h := nxHonestAuth(r.extra, nxDom(r.s.Dom))(binding)
+		der := h.Bytes()
+		pre := make([]byte, 2)
+		binary.LittleEndian.PutUint16(pre, uint16(len(der)))
+		switch kind {
+		case "nohs":
+		case "halfhs":
+			c.Write(nxCat(pre, der[:len(der)/2]))
+		case "halfframe":
+			c.Write(nxCat(pre, der))
+			c.Write(nxCat([]byte{2, 100, 0, 0, 0}, make([]byte, 16)))
+		default:
+			nxFatal("unknown stall kind %q", kind)
+		}
+	}()
 }
 
 func (r *nfRun) serve(n *nfNode, addr string) error {
@@ -1178,6 +1241,13 @@ func nfExec(mat *nxMaterial, out *nxOut, s nfScenario) {
 		}
 		r.nodes[i] = &nfNode{id: i, ident: &nxIdent{Bytes: nxSelfSigned(&k.PublicKey, k), signer: k}, recv: true}
 	}
+	if s.Fault == "install" {
+		k, err := ecdsa.GenerateKey(elliptic.P256(), rand.Reader)
+		if err != nil {
+			nxFatal("key: %v", err)
+		}
+		r.extra = &nxIdent{Bytes: nxSelfSigned(&k.PublicKey, k), signer: k}
+	}
 	for i := 1; i <= s.N; i++ {
 		n := r.nodes[i]
 		v := i == s.Victim
@@ -1208,6 +1278,13 @@ func nfExec(mat *nxMaterial, out *nxOut, s nfScenario) {
 			n.parties[j] = comm.NewSocketRemoteParty(comm.PartyConnectionConfig{
 				AuthFunc: nxHonestAuth(n.ident, nxDom(s.Dom)), Domain: nxDom(s.Dom), Id: j, Endpoint: r.nodes[j].addr, TlsCAs: mat.pool}, nfLogger{r: r, node: i})
 		}
+	}
+	if s.Fault == "install" {
+		// the stalling peers connect FIRST; everybody else dials (lazily, on the first Send) after them
+		for _, k := range s.Stall {
+			r.staller(k)
+		}
+		time.Sleep(100 * time.Millisecond)
 	}
 	inconclusive := ""
 	var wg sync.WaitGroup
